@@ -4,14 +4,14 @@ from world import oracles
 from world.gen import Profile
 from .mqspec import MQSpec
 
-FAULTS = ('drop_pub', 'kill', 'partition', 'delay_spike', 'stall')
+FAULTS = ('drop_pub', 'kill', 'partition', 'delay_spike', 'stall', 'restart_graceful')
 
 
 def union_profiles(tier):
     """C01/C02 must hold everywhere: the union of all MQ profiles."""
     return [
-        (Profile('plain', faults=()), 4),
-        (Profile('faulty', faults=FAULTS, fault_free_pct=10, hwm_small=True, lat_max_ms=400), 5),
+        (Profile('plain', faults=(), api_consumers=True), 4),
+        (Profile('faulty', faults=FAULTS, fault_free_pct=10, hwm_small=True, lat_max_ms=400, api_consumers=True), 5),
         (Profile('rejoin-heavy', shapes=('tee_rejoin', 'join'), faults=FAULTS, fault_free_pct=40), 4),
         (Profile('ephemeral-side', faults=('drop_pub', 'kill'), ephemeral=2, fault_free_pct=50), 2),
         (Profile('balance', shapes=('balance',), faults=('kill', 'stall'), fault_free_pct=60, max_proc_ms=80), 1),
